@@ -150,6 +150,21 @@ def rule_check(ctx, rid="R12.3"):
     cfg = cfg_of(f)
     rd = reaching_defs(cfg)
     r = ctx.rule(rid, "FormatChecker.check: unknown names pass; listed exceptions become the cause; FormatError iff the result is falsy", floor=5)
+    from .fmtsem import check_eval
+    sem = check_eval(prog)
+    if sem is not None:
+        # decided by running check() inside the definitional interpreter against recording stub checkers (11 table rows)
+        keymap = {"unknown": "no-membership-test", "verdict": "raise-condition", "cause": "cause-prov|cause", "unlisted": "handler", "once": "call", "raises": "raise-condition"}
+        for clause in ("unknown", "verdict", "cause", "unlisted", "once", "raises"):
+            if clause not in sem:
+                continue
+            if sem[clause] is None:
+                r.ok(site(f) + " [%s]" % clause, {"unknown": "unknown names return without calling anything", "verdict": "FormatError exactly when the result is falsy or a listed exception was raised",
+                                                   "cause": "the cause is the listed exception itself, None otherwise", "unlisted": "unlisted exceptions reach the caller unchanged",
+                                                   "once": "the registered function is called once with the instance"}.get(clause, clause))
+            else:
+                r.fail("%s|%s" % (f.qual, keymap[clause]), site(f), sem[clause])
+        return r
     ip, fp = f.params[1], f.params[2]
     # (a) membership test
     mem = []
@@ -307,6 +322,17 @@ def rule_conforms(ctx, rid="R12.4"):
     check = find_method(prog, "_format.FormatChecker", "check")
     cfg = cfg_of(f)
     r = ctx.rule(rid, "conforms() is check() turned into a boolean", floor=3)
+    from .fmtsem import check_eval
+    sem = check_eval(prog)
+    if sem is not None:
+        msg = sem.get("conforms") or sem.get("raises")
+        if msg is None:
+            r.ok(site(f), "True where check() passes (also for unknown names), False where it raises FormatError")
+            r.ok(site(f) + " [unlisted]", "an exception check() lets through also leaves conforms()")
+            r.ok(site(f) + " [bool]", "the result is a boolean")
+        else:
+            r.fail("%s|shape" % f.qual, site(f), msg)
+        return r
     cn = [(n, c) for n in cfg.live for (c, tg) in calls_at(calls, f, n) if any(t.kind == "func" and t.func is check for t in tg)]
     if len(cn) != 1:
         r.fail("%s|check-calls:%d" % (f.qual, len(cn)), site(f), "conforms must call check exactly once")
@@ -402,6 +428,15 @@ def rule_string_guard(ctx, rid="R12.5"):
         seen.add(f)
         v = string_guard_verdict(f)
         names = sorted({e2.cls_name or "" for e2 in entries if e2.func is f})
+        if v is not None:
+            # the CFG rule knows `if not isinstance(instance, str): return True` and its negation; other spellings (conditional
+            # expressions, `or`) are decided by evaluating the function on non-string values
+            from .fmtsem import guard_eval
+            g = guard_eval(prog, f)
+            if g is None:
+                v = None
+            # otherwise (a wrong answer, an exception, or the function left the evaluated fragment -- e.g. handed the value to a
+            # library -- before answering True) the path rule's finding stands
         if v is None:
             r.ok(site(f) + " %s%s" % (names, "" if e.present else " (optional library absent)"), "string guard dominates every use")
         else:
@@ -422,6 +457,16 @@ def rule_registration(ctx, rid="R12.6"):
     calls = calls_of(prog)
     r = ctx.rule(rid, "_checks_drafts registers on the matching draft checker, class-wide under the newest name, always forwarding raises", floor=5)
     f = prog.func("_format._checks_drafts")
+    from .fmtsem import registration_eval
+    sem = registration_eval(prog)
+    if sem is not None:
+        if sem["registers"] is None:
+            for d in ("draft3", "draft4", "draft6", "draft7"):
+                r.ok(site(f) + " [%s]" % d, "registered on the %s checker under that draft's name (or the common name), with its raises" % d)
+            r.ok(site(f) + " [class-wide]", "registered class-wide under the newest draft's name, with its raises; the function is returned unchanged")
+        else:
+            r.fail("%s|cls-wide" % f.qual if "class-wide" in sem["registers"] else "%s|default|registration" % f.qual, site(f), sem["registers"])
+        return r
     wrap = [x for x in f.nested.values() if isinstance(x, Func)]
     if len(wrap) != 1:
         raise AnalysisError("_checks_drafts: expected one nested function")
